@@ -40,6 +40,9 @@ pub enum BCmd {
     AckProbe { claims: Vec<(usize, u64, u64)> },
     /// facade: delta for these claims under an explicit byte budget
     DeltaProbe { claims: Vec<(usize, u64, u64)>, mtu: usize },
+    /// as DeltaProbe, with the budget derived at run time from the untruncated delta: the budget at
+    /// which its `op_pick`-th operation lands exactly on the limit, plus `d` bytes
+    BoundaryProbe { claims: Vec<(usize, u64, u64)>, op_pick: u32, d: i8 },
     Advance { ms: u64 },
     Gc,
     Evaluate,
@@ -254,6 +257,51 @@ impl Bw {
                     _ => Ok(()),
                 }
             }
+            BCmd::BoundaryProbe { claims, op_pick, d } => {
+                let mut db = Vec::new();
+                codec::put_digest(&mut db, &self.digest_of(claims));
+                let full = {
+                    let _g = self.solo.rt.enter();
+                    let chit = &self.solo.chit;
+                    crate::common::guarded(|| chit.verif_compute_delta(&db, 65_507))
+                };
+                let Ok(Ok(bytes)) = full else { return Ok(()) };
+                let mut framed = vec![];
+                codec::put_u16(&mut framed, codec::MAGIC);
+                framed.push(0);
+                framed.push(2);
+                framed.extend_from_slice(&bytes);
+                let Ok((m, _, _)) = codec::decode(&framed) else { return Ok(()) };
+                let ops = m.ops().cloned().unwrap_or_default();
+                if ops.is_empty() {
+                    return Ok(());
+                }
+                // half of the time aim at an operation kind picked by the low bits (member header,
+                // key-value, max-version), so that rare kinds get their share of boundaries
+                let want = (*op_pick >> 8) % 6;
+                let of_kind: Vec<usize> = ops
+                    .iter()
+                    .enumerate()
+                    .filter(|(_, op)| match (want, op) {
+                        (0, Op::Node { .. }) | (1, Op::Kv(_)) | (2, Op::SetMax(_)) => true,
+                        _ => false,
+                    })
+                    .map(|(i, _)| i)
+                    .collect();
+                let i = if of_kind.is_empty() { (*op_pick as usize) % ops.len() } else { of_kind[(*op_pick as usize) % of_kind.len()] };
+                let mut cum = 0usize;
+                for op in ops.iter().take(i + 1) {
+                    let mut b = Vec::new();
+                    codec::put_op(&mut b, op);
+                    cum += b.len();
+                }
+                let blocks = cum / 16_384 + 1;
+                let mtu = ((3 * blocks + cum + 1) as i64 + *d as i64).clamp(100, 65_507) as usize;
+                self.stats.inc("boundary_probes");
+                let c = BCmd::DeltaProbe { claims: claims.clone(), mtu };
+                self.step -= 1;
+                self.apply(&c)
+            }
             BCmd::DeltaProbe { claims, mtu } => {
                 let mut db = Vec::new();
                 codec::put_digest(&mut db, &self.digest_of(claims));
@@ -381,12 +429,23 @@ fn run(seed: u64, keep_log: bool) -> (BCfg, Vec<BCmd>, Bw, Option<Violation>) {
     if ok && nm > 0 && !tight {
         for _ in 0..r.range(0, nm as u64 * 2) {
             let member = 1 + r.usize_below(nm);
-            let kvs: Vec<(String, ValSpec, u8)> = (0..r.range(1, 12)).map(|j| (format!("s{j}"), val(&mut r, 4), r.below(3) as u8)).collect();
+            // now and then a member made only of tombstones: once collected it has nothing left to
+            // send but its max version
+            let all_tombstones = r.chance(0.35);
+            let nk = if all_tombstones { r.range(1, 3) } else { r.range(1, 12) };
+            let kvs: Vec<(String, ValSpec, u8)> = (0..nk).map(|j| (format!("s{j}"), val(&mut r, 4), if all_tombstones { 1 } else { r.below(3) as u8 })).collect();
             let gc = r.below(4);
             if !go!(BCmd::Feed { member, kvs, gc }) {
                 ok = false;
                 break;
             }
+        }
+    }
+    // let tombstones age out and be collected before probing, in about half of the runs
+    if ok && r.chance(0.5) {
+        ok = go!(BCmd::Advance { ms: 10_000 + r.below(2) });
+        if ok {
+            ok = go!(BCmd::Gc);
         }
     }
     // probes
@@ -399,15 +458,17 @@ fn run(seed: u64, keep_log: bool) -> (BCfg, Vec<BCmd>, Bw, Option<Violation>) {
         let c = match r.below(12) {
             0..=3 => BCmd::SynProbe { claims },
             4..=6 => BCmd::AckProbe { claims },
-            7..=8 => {
+            7 => BCmd::BoundaryProbe { claims, op_pick: r.next() as u32, d: *r.pick(&[-3i8, -2, -1, -1, 0, 0, 1]) },
+            8 => {
                 let mtu = match r.below(4) {
-                    0 => r.range(100, 400),
+                    0 => r.range(100, 700),
                     1 => *r.pick(&[16_380u64, 16_384, 16_388, 32_768, 32_771, 49_152, 65_503, 65_506, 65_507]) + r.below(4),
                     2 => r.range(100, 65_507),
                     _ => r.range(60_000, 65_507),
                 };
                 BCmd::DeltaProbe { claims, mtu: mtu as usize }
             }
+            9 if r.chance(0.6) => BCmd::BoundaryProbe { claims, op_pick: r.next() as u32, d: *r.pick(&[-2i8, -1, -1, 0, 0, 1]) },
             9 => {
                 let key = format!("k{}", r.below(nkeys.max(1)));
                 let v = val(&mut r, regime);
